@@ -263,6 +263,61 @@ Proof.
 Qed.
 Print Assumptions C06c_evo_labels.
 
+(* lineage: every object-creating oracle names existing objects as parents (ParentOperator is built
+   from existing Individuals; initial individuals have no parents) *)
+Definition lineage_contracts (rep_cells : nat -> list ccell -> list nat -> list ccell)
+    (init_cells : list ccell)
+    (extend : list ccell -> list nat -> nat -> list ccell * list nat)
+    (regularize : nat -> list ccell -> list nat -> list ccell * list nat)
+    (div_refill : nat -> list ccell -> list nat -> nat -> list ccell) : Prop :=
+  (forall c, In c init_cells -> cc_parents c = []) /\
+  (forall h ids n cells acc, extend h ids n = (cells, acc) -> cells_wf ccell cc_parents h cells) /\
+  (forall k h pop c1 sel, regularize k h pop = (c1, sel) -> cells_wf ccell cc_parents h c1) /\
+  (forall k h sel, cells_wf ccell cc_parents h (rep_cells k h sel)) /\
+  (forall k h l n, cells_wf ccell cc_parents h (div_refill k h l n)).
+
+(* following parent links from any individual of the composed run terminates: the heap is
+   well-founded, so the lineage walker never exhausts its guard (C06_lineage_walk_terminates) *)
+Theorem C06c_evo_lineage_terminates :
+  forall multi keep steps rep_cells rep_partial evaluate init_cells init_size extend regularize
+         div_freq div_min div_unique div_refill stop,
+  lineage_contracts rep_cells init_cells extend regularize div_refill ->
+  forall fuel w0,
+  let h := map to_hind (cs_heap (evo_optimise multi keep steps rep_cells rep_partial evaluate init_cells init_size
+                                              extend regularize div_freq div_min div_unique div_refill stop fuel w0)) in
+  HistoryProofs.wf_heap h /\
+  forall m u guard, u < guard ->
+    exists l, parents_from_prev_generation h m guard u = Some l /\ (l = [] \/ forallb (has_ng m) l = true).
+Proof.
+  intros until stop. intros (W1 & W2 & W3 & W4 & W5) fuel w0 h.
+  assert (W : HistoryProofs.wf_heap h).
+  { exact (evo_lineage_wf multi keep steps rep_cells rep_partial evaluate init_cells init_size extend regularize
+             div_freq div_min div_unique div_refill stop W1 W2 W3 W4 W5 fuel w0). }
+  split; [exact W|]. intros m u guard L.
+  destruct (HistoryProofs.parents_from_prev_generation_total h m u guard W L) as [l E].
+  exists l. split; [exact E|]. exact (HistoryProofs.walk_result _ _ _ _ _ E).
+Qed.
+Print Assumptions C06c_evo_lineage_terminates.
+
+(* PopulationalRandomMutationOptimizer is the same loop with inheritance and elitism replaced by
+   "take the offspring as they are": the identity meets both contracts, so (A) covers it *)
+Theorem C06c_identity_meets_contracts : forall (prev new : list nat),
+  incl new (prev ++ new) /\ (NoDup prev -> NoDup new -> NoDup new).
+Proof. intros. split; [apply incl_appr, incl_refl|auto]. Qed.
+Print Assumptions C06c_identity_meets_contracts.
+
+(* ---------------------------------------------------------------------------------------------- *)
+(* (C) the relation evaluated on every transition of every real run                                 *)
+(* ---------------------------------------------------------------------------------------------- *)
+(* an admitted transition satisfies the per-individual clauses of C06 for the generation it records
+   and the archive clause for the snapshot recorded with it *)
+Theorem C06c_step_admits_sound : forall o, step_admits o = true ->
+  NoDup (os_next o) /\
+  (forall u, In u (os_next o) -> hflag h_valid (os_heap o) u = true /\ hflag h_verified (os_heap o) u = true) /\
+  NoDup (os_arch_next o) /\ incl (os_arch_next o) (os_arch_prev o ++ os_next o).
+Proof. exact step_admits_sound. Qed.
+Print Assumptions C06c_step_admits_sound.
+
 (* ---------------------------------------------------------------------------------------------- *)
 (* non-vacuity: concrete oracles that satisfy the contracts, and a concrete run                     *)
 (* ---------------------------------------------------------------------------------------------- *)
@@ -364,3 +419,16 @@ Example ex_step_admits :
   (* more members than the step allows *)
   step_admits (ex_ostep KEvolve [0; 1; 2] [0; 1; 2] [1] [1; 5; 0] [5] 2) = false.
 Proof. vm_compute. repeat split. Qed.
+
+(* the heap of the example run is well-founded (parents created before children), and the whole run
+   is admitted transition by transition *)
+Example ex_run_wf_and_admitted :
+  wf_heap_b (map to_hind (cs_heap ex_run)) = true /\
+  run_admits (map to_hind (cs_heap ex_run))
+    [ {| ot_kind := KInitial; ot_seen := []; ot_prev := []; ot_arch_prev := []; ot_next := [0; 1]; ot_arch_next := [1]; ot_max := 3 |};
+      {| ot_kind := KExtended; ot_seen := [0; 1]; ot_prev := [0; 1]; ot_arch_prev := [1]; ot_next := [0; 1; 2]; ot_arch_next := [1]; ot_max := 3 |};
+      {| ot_kind := KEvolve; ot_seen := [0; 1; 2]; ot_prev := [0; 1; 2]; ot_arch_prev := [1]; ot_next := [1; 5; 0]; ot_arch_next := [5]; ot_max := 3 |};
+      {| ot_kind := KEvolve; ot_seen := [0; 1; 2; 5]; ot_prev := [1; 5; 0]; ot_arch_prev := [5]; ot_next := [5; 8; 1]; ot_arch_next := [8]; ot_max := 3 |};
+      {| ot_kind := KEvolve; ot_seen := [0; 1; 2; 5; 8]; ot_prev := [5; 8; 1]; ot_arch_prev := [8]; ot_next := [8; 11; 5]; ot_arch_next := [11]; ot_max := 3 |};
+      {| ot_kind := KFinal; ot_seen := [0; 1; 2; 5; 8; 11]; ot_prev := [8; 11; 5]; ot_arch_prev := [11]; ot_next := [11]; ot_arch_next := [11]; ot_max := 3 |} ] = true.
+Proof. vm_compute. split; reflexivity. Qed.
